@@ -198,3 +198,14 @@ def HKEY(x):
     if HASRES(x, 0):
         return ((TOP6(x) * 5) << TOPSHIFT) | (x & LOW58)
     return x
+
+
+def RESOF(x):
+    """Resolution of a valid id, as a function: the level whose marker is the lowest set bit (-1 for the world cell)."""
+    if x == 0:
+        return -1
+    low = x & (0 - x)
+    r = -2
+    for k in range(30):
+        r = k if low == MARKER(k) else r
+    return r
